@@ -230,6 +230,9 @@ fn apply(w: &mut World, op: &ROp) -> OpResult {
     }
 }
 
+/// A chunk size that no allocation can satisfy.
+pub const HUGE_CHUNK: usize = isize::MAX as usize + 1;
+
 /// What the model expects the op to do (documented behaviour); only used outside C14-resync.
 fn model_step(m: &mut Model, op: &ROp) {
     if let ROp::SetChunk(0) = op {
@@ -305,7 +308,7 @@ fn oracle(cfg: &Cfg, mode: Mode, data: &[u8], w: &mut World, op: &ROp, before: &
         // be consistent. Resynchronise the model's cursor with the reader's own position.
         let documented = match op {
             ROp::Advance(n) | ROp::AdvanceWithBuf(n) => *n > before.buf_len,
-            ROp::Request(_) | ROp::ByteAt(_) | ROp::RequestByte | ROp::RequestMore => lying,
+            ROp::Request(_) | ROp::ByteAt(_) | ROp::RequestByte | ROp::RequestMore => lying || w.reader.verif_state().chunk_size >= HUGE_CHUNK,
             _ => false,
         };
         if !documented {
@@ -553,8 +556,12 @@ fn alphabet(cfg: &Cfg, mode: Mode, w: &World, tier: Tier) -> Vec<ROp> {
         if w.reader.verif_state().chunk_size != 0 {
             ops.push(ROp::SetChunk(0));
         }
+        // a chunk size no allocation can satisfy (legal through the safe API): the refill panics with
+        // a capacity overflow (caught); the window must still be what it was. Short streams only.
+        if cfg.n <= 3 && cfg.lie.is_none() && w.reader.verif_state().chunk_size != 0 && w.reader.verif_state().chunk_size < HUGE_CHUNK {
+            ops.push(ROp::SetChunk(HUGE_CHUNK));
+        }
     }
-    let _ = cfg;
     ops
 }
 
@@ -596,6 +603,11 @@ fn drain(cfg: &Cfg, data: &[u8], w: &mut World) -> Option<String> {
     let end = cfg.fault_at.map_or(data.len(), |k| k.min(data.len())).max(base);
     let stream = &data[base..end];
     let cursor = w.model.cursor;
+    // a chunk size that cannot be allocated is put right first: the drain asks what the reader still
+    // holds and can still deliver, not whether it can allocate 2^63 bytes
+    if w.reader.verif_state().chunk_size >= HUGE_CHUNK {
+        w.reader.set_chunk_size(2);
+    }
     let r = catch(|| {
         w.reader.request(usize::MAX).to_vec()
     });
